@@ -15,6 +15,9 @@ RULE = ("tie X on complete event traces of Lithium.run: exhaustive DFS over ever
 def run(ck: Check):
     ex = Explorer(ck, oracles=[oracle_c01])
     driver_universe(ex, ck, aborts=False)
+    from explore import oracle_session
+    from universe import session_universe
+    session_universe(ck, oracle_session, quick=ck.tier == "quick")
     ex.diff()
     return ck.finish(level="proof", rule=RULE, assumptions=[
         "the interestingness test sees only the file, its arguments and the prefix",
